@@ -99,6 +99,27 @@ func (c *Ctx) InstallAxioms() error {
 			return err
 		}
 	}
+	// immutable fields
+	for i, d := range c.spec.Immutable {
+		fi := &FuncInfo{Key: "immutable:" + d, Pkg: c.pkgs[0]}
+		fx := &FuncExec{ctx: c, reg: c.reg, pkg: c.pkgs[0], fi: fi}
+		var err error
+		func() {
+			defer func() {
+				if r := recover(); r != nil {
+					err = fmt.Errorf("immutable %s: %v", d, r)
+				}
+			}()
+			for _, comp := range fx.compsOf(d, c.pkgByPath(c.spec.ImmutablePkg[i])) {
+				c.reg.imm[comp] = true
+				ks, vs := arraySorts(c.reg.compSort[comp])
+				c.reg.declFun("imm_"+comp, fmt.Sprintf("(declare-fun imm_%s (%s) %s)", comp, ks, vs))
+			}
+		}()
+		if err != nil {
+			return err
+		}
+	}
 	// global ghost variables become heap components GV_<name>
 	for i, gv := range c.spec.GhostVars {
 		fi := &FuncInfo{Key: "ghostvar:" + gv.Name, Pkg: c.pkgs[0]}
